@@ -578,6 +578,8 @@ class MarkdownNormalizer(Renderer):
         return result
 
     def render_thematic_break(self, _element: block.ThematicBreak) -> str:
+        # Reset the skip flag since we're not rendering a blank line
+        self._skip_next_blank_line = False
         result = f"{self._prefix}* * *\n"
         self._prefix = self._second_prefix
         # After a thematic break, don't suppress the next item break (as for code and quotes)
@@ -632,6 +634,9 @@ class MarkdownNormalizer(Renderer):
         """Render a standard link reference definition:
         [label]: url "title"
         """
+        # Reset the skip flag since we're not rendering a blank line
+        self._skip_next_blank_line = False
+
         link_text = element.dest
         if element.title:
             link_text += f" {_normalize_title_quotes(element.title)}"
@@ -764,6 +769,9 @@ class MarkdownNormalizer(Renderer):
         standard 4-space indentation. See:
         https://github.com/micromark/micromark-extension-gfm-footnote
         """
+        # Reset the skip flag since we're not rendering a blank line
+        self._skip_next_blank_line = False
+
         # Render label and the rest within an indented container.
         label_part = f"[^{element.label}]: "
         with self.container(label_part, "    "):
@@ -784,6 +792,9 @@ class MarkdownNormalizer(Renderer):
         Render a GFM table. Does not do whitespace padding and normalizes
         the delimiters to use three dashes consistently.
         """
+        # Reset the skip flag since we're not rendering a blank line
+        self._skip_next_blank_line = False
+
         lines: list[str] = []
         head, *body = element.children
         lines.append(self.render(head))
